@@ -58,7 +58,8 @@ def getConfig : P (Config Float) := do
       pure (VertMix.labolle vdt dz vmax)
   let horz ← getOpt (do let a ← getF; let b ← getF; pure (a, b))
   let lifespan ← getOpt getF
-  pure { dt, vertadv, mix, horz, lifespan }
+  let collisionClamp ← getB
+  pure { dt, vertadv, mix, horz, lifespan, collisionClamp }
 
 /-- `chem.update cfg env stuck repX repY nvert vert… hx hy x y z age alive` -/
 def hChemUpdate : Handler := do
